@@ -76,9 +76,20 @@ theorem Evolves.set_core {P : Stream → Stream → Prop} {N : Stream → Prop} 
   rw [Store.getD'_of_get? hg] at hx
   exact Good.core hx
 
+theorem decContentLength_core {st st1 : Stream} {n : Nat} (h : st.decContentLength n = some st1) : CoreEq st st1 := by
+  unfold Stream.decContentLength at h
+  split at h
+  · split at h
+    · cases h; exact ⟨rfl, rfl, rfl, rfl⟩
+    · cases h
+  · split at h
+    · cases h
+    · cases h; exact ⟨rfl, rfl, rfl, rfl⟩
+  · cases h; exact ⟨rfl, rfl, rfl, rfl⟩
+
 macro_rules
   | `(tactic| ev_step) =>
-    `(tactic| (with_reducible refine Evolves.set_core ?_ _ _ ?hx; case hx => first | exact coreEq_sendData _ _ _ | exact ‹∀ (x : Stream) (a b : Nat), CoreEq x (_ x a b).1› _ _ _))
+    `(tactic| (with_reducible refine Evolves.set_core ?_ ?id _ ?hx; case hx => first | exact coreEq_sendData _ _ _ | with_reducible exact decContentLength_core (by assumption)))
 
 theorem resetCount_tail_le {l rest : List SFrame} {f : SFrame} (h : l = f :: rest) : resetCount rest ≤ resetCount l := by
   subst h; simp
@@ -100,12 +111,45 @@ theorem popFrameC_sr (sd : Stream → Nat → Nat → Stream × List String × B
     Evolves SRel RInv a (popFrameC sd fuel s maxLen).1.store := by
   induction fuel generalizing s with
   | zero => rw [popFrameC_zero]; exact h
-  | succ n ih => rw [popFrameC_succ]; ev
+  | succ n ih =>
+    rw [popFrameC_succ]; ev
+    all_goals
+      with_reducible refine Evolves.set_core ?_ ?id _ ?hx
+      case hx => exact hsd _ _ _
+      ev
 
 theorem popFrame_sr (fuel : Nat) (maxLen : Nat) (h : Evolves SRel RInv a s.store) :
     Evolves SRel RInv a (Streams.popFrame fuel s maxLen).1.store := by
   rw [popFrameC.eq]; exact popFrameC_sr _ coreEq_sendData fuel maxLen h
 macro_rules | `(tactic| ev_step) => `(tactic| with_reducible apply popFrame_sr)
+
+
+theorem reclaimFrameInner_sr (h : Evolves SRel RInv a s.store) (f : DataFrame) :
+    Evolves SRel RInv a (s.reclaimFrameInner f).1.store := by
+  unfold Streams.reclaimFrameInner; ev
+macro_rules | `(tactic| ev_step) => `(tactic| with_reducible apply reclaimFrameInner_sr)
+
+theorem reclaimFrame_sr (h : Evolves SRel RInv a s.store) (w : Writer) :
+    Evolves SRel RInv a (s.reclaimFrame w).1.store := by
+  unfold Streams.reclaimFrame; ev
+macro_rules | `(tactic| ev_step) => `(tactic| with_reducible apply reclaimFrame_sr)
+
+theorem bufferOut_sr (h : Evolves SRel RInv a s.store) (w : Writer) (f : Streams.OutFrame) :
+    Evolves SRel RInv a (s.bufferOut w f).1.store := by
+  unfold Streams.bufferOut; ev
+macro_rules | `(tactic| ev_step) => `(tactic| with_reducible apply bufferOut_sr)
+
+theorem prioBufferPendingLoop_sr (fuel : Nat) (w : Writer) (h : Evolves SRel RInv a s.store) :
+    Evolves SRel RInv a (Streams.prioBufferPendingLoop fuel s w).1.store := by
+  induction fuel generalizing s w with
+  | zero => unfold Streams.prioBufferPendingLoop; ev
+  | succ n ih => unfold Streams.prioBufferPendingLoop; ev
+macro_rules | `(tactic| ev_step) => `(tactic| with_reducible apply prioBufferPendingLoop_sr)
+
+theorem prioBufferPending_sr (fuel : Nat) (w : Writer) (h : Evolves SRel RInv a s.store) :
+    Evolves SRel RInv a (Streams.prioBufferPending fuel s w).1.store := by
+  unfold Streams.prioBufferPending; ev
+macro_rules | `(tactic| ev_step) => `(tactic| with_reducible apply prioBufferPending_sr)
 
 end
 end H2V.Lemmas.ConnResetP
